@@ -25,16 +25,29 @@ class FakePort:
         self.writes = []
         self.closed = False
         self.close_raises = close_raises
+    # the exception classes a failing port raises: pyserial's own, and the OS-level ones that can come through it
+    FAULTS = [serial.SerialException, serial.SerialException, OSError, serial.SerialTimeoutException, BrokenPipeError, serial.SerialException,
+              IOError, TimeoutError, serial.serialutil.PortNotOpenError, ConnectionResetError]
+    NARROW = [serial.SerialException, serial.SerialTimeoutException, serial.serialutil.PortNotOpenError]
+    wide_faults = True       # False while connect / reboot / bootload run: those contain pyserial's exceptions only (see DESIGN.md 0.6)
+    def fault(self, where):
+        pool = self.FAULTS if self.wide_faults else self.NARROW
+        cls = pool[self.script.consumed % len(pool)]
+        if cls is serial.serialutil.PortNotOpenError:
+            return cls()
+        if issubclass(cls, serial.SerialException):
+            return cls("injected fault on %s" % where)
+        return cls(5, "Input/output error (injected fault on %s)" % where)
     def write(self, data):
         ev = self.script.next()
         if ev == "F":
-            raise serial.SerialException("injected fault on write")
+            raise self.fault("write")
         self.writes.append(data)
         return len(data)
     def readline(self):
         ev = self.script.next()
         if ev == "F":
-            raise serial.SerialException("injected fault on read")
+            raise self.fault("read")
         if ev is None or ev == "E":
             return b""
         return ev[1].encode("ascii") + b"\r\n"
@@ -166,10 +179,17 @@ def run_history(calls, events, close_raises=False):
     fp = install(script, [], close_raises)
     obj = ebb3_motion.EBBMotionWrap()
     out = []
+    recorded = []                       # every message handed to record_error (observed on the instance, no change to the class)
+    orig_record = obj.record_error
+    def spy(message):
+        recorded.append(message)
+        return orig_record(message)
+    obj.record_error = spy
     try:
         for call in calls:
-            before_w = len(fp.writes); before_c = script.consumed
+            before_w = len(fp.writes); before_c = script.consumed; before_r = len(recorded)
             raised, ret = None, None
+            fp.wide_faults = call[0] not in ("connect", "reboot", "bootload", "disconnect")
             try:
                 ret = do_call(obj, call)
             except BaseException as e:      # noqa - the harness records, it does not judge here
@@ -178,6 +198,8 @@ def run_history(calls, events, close_raises=False):
             for d in fp.writes[before_w:]:
                 t = d.decode("latin-1")
                 writes.append(t[:-1] if t.endswith("\r") else t + "<noCR>")
+            if raised is None and len(recorded) > before_r and obj.err is None:
+                raised = "RecordedErrorErased"          # an error was recorded during this call and is gone at its end
             out.append({"raised": raised, "ret": ret, "writes": writes, "err": err_kind(obj.err), "err_text": obj.err,
                         "port": obj.port is not None, "name": obj.name, "consumed": script.consumed - before_c})
     finally:
